@@ -71,6 +71,13 @@ let replay ~maxt ~program (lines : line list) : string option =
          (match pspurious !st (nat_of_int t) with Some s' -> st := s' | None -> err := Some (Printf.sprintf "step %d: model thread %d is not blocked on a condition" k t))
        else begin
          let wake = (if !i + 1 < n then (match arr.(!i + 1) with Wake u -> Some (nat_of_int u) | _ -> None) else None) in
+         (* hypothesis sched_wf of the C13 theorems: the thread a signal wakes is blocked on a condition variable *)
+         (match wake with
+          | Some u when op = "signal" ->
+            if (gett !st u).t_blocked = None then
+              err := Some (Printf.sprintf "step %d: the signal woke thread %d, which is not blocked in the model (hypothesis sched_wf of T13 does not hold on this trace)" k (int_of_nat u))
+          | _ -> ());
+         if !err = None then
          (match pstep !st (nat_of_int t) wake !stash with
           | None -> err := Some (Printf.sprintf "step %d: thread %d is not enabled in the model" k t)
           | Some (((s', mop), mob), stash') ->
@@ -115,6 +122,9 @@ let spec_check (status : string) ~maxt ~program (lines : line list) : string opt
   end
 
 let check acc ~klass ~maxt ~policy ~seed ~spurious ~program ~forced =
+  (* hypothesis prog_wf of the C13 theorems (the extracted test): handlers exist, no dispatch after finish, destroy last *)
+  if not (prog_wf (cmds_of_program program)) then
+    fail acc ~kind:"model_mismatch" ~what:"[C13] a generated caller program does not satisfy prog_wf (hypothesis of T13_no_abort / T13b / T13_exactly_once)" (JS program);
   let case = lazy (JO [ "max_threads", JI maxt; "program", JS program; "policy", JS policy; "seed", JI seed; "spurious", JB spurious;
                         "forced_schedule", JL (List.map (fun x -> JI x) forced) ]) in
   let (status, lines) = run_harness ~maxt ~policy ~seed ~spurious ~program ~forced in
